@@ -12,7 +12,7 @@ pub fn any_bin() -> std::path::PathBuf {
     std::env::var("VH_ANY").map(Into::into).unwrap_or_else(|_| fw::verif_dir().join("harness/target/any/release/any"))
 }
 
-const VALUES: [&str; 14] = ["1", "-1", "0", "7", "0.5", "(1 / 3)", "(22 / 7)", "1e13", "1e-13", "12345678901234.5", "0.1234567890123", "(-2 / 3)", "100", "0.999999999999999"];
+const VALUES: [&str; 19] = ["1", "-1", "0", "7", "0.5", "(1 / 3)", "(22 / 7)", "1e13", "1e-13", "12345678901234.5", "0.1234567890123", "(-2 / 3)", "100", "0.999999999999999", "-1e-13", "(0 - 1 / 3 ^ 40)", "-0.000000000000123", "-12345678901234.5", "-1e13"];
 const UNITS: [&str; 9] = ["", "m", "km", "decade", "m/s", "/s", "m^2", "btu", "kg*m/s^2"];
 
 fn queries(tier: Tier) -> Vec<String> {
@@ -55,6 +55,18 @@ fn queries(tier: Tier) -> Vec<String> {
             }
         }
     }
+    // several results in one query: every ordered pair and triple over a plain number, quantities
+    // with and without a numerator part, a pluralising unit, an error (what one result prints must
+    // not depend on its neighbours)
+    let elems = ["2", "3 km", "5 / 1 s", "1 m + 1 s", "0.5 decade", "1"];
+    for a in elems {
+        for b in elems {
+            v.push(format!("({a}) ({b})"));
+            for c in elems {
+                v.push(format!("({a}) ({b}) ({c})"));
+            }
+        }
+    }
     // exponents of two and three digits, numerator and denominator (superscripts are printed digit by digit)
     for u in ["m", "s", "K", "btu", "km"] {
         for n in ["10", "12", "21", "123", "100"] {
@@ -88,6 +100,7 @@ enum Item {
 /// What the independent unit re-reader needs for one `Ok` line.
 struct LineInfo {
     number: String,
+    value: num::BigRational,
     parts: crate::obs::UnitParts,
     value_is_one: bool,
 }
@@ -122,7 +135,7 @@ fn expected(db: &anything::Db, q: &str, exact: bool) -> Option<(Vec<Item>, Vec<O
                 }
                 s.push_str(&n.unit.display(!n.value.is_one()).to_string());
                 out.push(Item::Line(s));
-                infos.push(Some(LineInfo { number, value_is_one: crate::obs::rat_of(&n.value) == num::BigRational::one(), parts }));
+                infos.push(Some(LineInfo { number, value: crate::obs::rat_of(&n.value), value_is_one: crate::obs::rat_of(&n.value) == num::BigRational::one(), parts }));
             }
             Err(e) => {
                 out.push(Item::Error(e.to_string()));
@@ -312,7 +325,7 @@ impl Prop for C19 {
         false
     }
     fn rule(&self) -> String {
-        "query family: 14 value shapes (1, -1, 0, integers, terminating and repeating fractions, 1e13, 1e-13, 15-digit decimals, a value one ulp below 1) x 9 unit shapes (none, m, km, pluralising `decade`/`btu`, m/s, no-numerator /s, m^2, compound) in two spellings, fact phrases with a unique best match, README examples, erroring queries, multi-result queries with an error between values, degenerate input; x {default, --exact}; each run through the real `any` binary (built from /repo by the check, on-disk index in a private data directory) and compared with the text rebuilt from the library's results by the stated rule (line per Ok result; `error: <message>` diagnostic per Err result, in order). Non-trivial = the query yields at least one result; distinct = distinct (query, mode)".into()
+        "query family: 14 value shapes (1, -1, 0, integers, terminating and repeating fractions, 1e13, 1e-13, 15-digit decimals, a value one ulp below 1) x 9 unit shapes, negative tiny/huge values, all ordered pairs and triples of 6 result kinds in one query, (none, m, km, pluralising `decade`/`btu`, m/s, no-numerator /s, m^2, compound) in two spellings, fact phrases with a unique best match, README examples, erroring queries, multi-result queries with an error between values, degenerate input; x {default, --exact}; each run through the real `any` binary (built from /repo by the check, on-disk index in a private data directory) and compared with the text rebuilt from the library's results by the stated rule (line per Ok result; `error: <message>` diagnostic per Err result, in order). Non-trivial = the query yields at least one result; distinct = distinct (query, mode)".into()
     }
     fn assumptions(&self) -> Vec<String> {
         vec![
@@ -386,6 +399,12 @@ impl Prop for C19 {
                             // independent re-reading of the printed unit
                             if let Some(info) = &infos[i] {
                                 let line = lines[j];
+                                // the number itself, re-read and compared with the value (C08's oracle at the CLI's spec)
+                                if !exact {
+                                    if let Err((sg, why)) = crate::props::c08::judge_printed(&info.value, &info.number, true) {
+                                        return fw::fail(sig(&format!("number-{sg}")), format!("{}: line {line:?}: {why}", case.key));
+                                    }
+                                }
                                 if let Some(rest) = line.strip_prefix(info.number.as_str()) {
                                     let had_space = rest.starts_with(' ');
                                     let unit_text = rest.strip_prefix(' ').unwrap_or(rest);
